@@ -142,6 +142,8 @@ func doSpecial(req request) map[string]interface{} {
 		r = []float64{special.Polygamma(req.Ints[0], a[0])}
 	case "LogErfc":
 		r = []float64{special.LogErfc(a[0])}
+	case "Erfcx":
+		r = []float64{special.Erfcx(a[0])}
 	case "Factorial":
 		r = []float64{special.Factorial(req.Ints[0])}
 	case "GammaUpper":
